@@ -307,10 +307,8 @@ def r2_elements_compared_boolean_aware(ctx):
         if h is None:
             ctx.ob("C05.R2", f"{IFACE}::seq_equals::{P.un(c)}", IFACE, c.lineno, False, "element comparison helper is not defined in this module")
             continue
-        a, b = [x.arg for x in h.args.args[:2]]
-        txt = P.un(h)
-        ok = f"isinstance({a}, (bool, type(None)))" in txt and f"isinstance({b}, (bool, type(None)))" in txt and f"{a} is {b}" in txt
-        ctx.ob("C05.R2", f"{IFACE}::{h.name}::guards both operands", IFACE, h.lineno, ok, "" if ok else "the element comparison does not keep booleans/nil apart from numbers on both sides")
+        w = _separates_bool_and_nil(it, h)
+        ctx.ob("C05.R2", f"{IFACE}::{h.name}::guards both operands", IFACE, h.lineno, not w, "" if not w else f"the element comparison does not keep booleans/nil apart from numbers on both sides: {w}")
     # a value wrapper is equal exactly when what it wraps is: the wrapped forms are elements too
     TAGGED = "src/basilisp/lang/tagged.py"
     tcls = P.find_def(ctx.py(TAGGED), "TaggedLiteral")
@@ -347,15 +345,42 @@ def r2_elements_compared_boolean_aware(ctx):
                witness="(= {:a true} {:a 1}) => true" if cname == "PersistentMap" else "(= #{true} #{1}) => true")
 
 
+
+def _separates_bool_and_nil(tree, fn) -> str:
+    """Evaluates a two-argument equality function of the repository (own interpreter, nothing is
+    imported) on every pair over booleans, nil, equal-looking numbers and strings; it has to answer
+    `a is b` when either side is a boolean or nil, and `a == b` otherwise.  Returns "" or a witness."""
+    from ..minipy import Interp, PyRaise, Unsupported
+    g = {}
+    for st in tree.body:  # module-level constants such as a tuple of classes
+        if isinstance(st, ast.Assign) and len(st.targets) == 1 and isinstance(st.targets[0], ast.Name) and isinstance(st.value, (ast.Tuple, ast.Constant)):
+            try:
+                g[st.targets[0].id] = Interp().eval(st.value, {})
+            except Exception:
+                pass
+    interp = Interp(globals_=g)
+    dom = [True, False, None, 0, 1, 1.0, 0.0, 2, "a", ""]
+    try:
+        for a in dom:
+            for b in dom:
+                want = (a is b) if isinstance(a, (bool, type(None))) or isinstance(b, (bool, type(None))) else (a == b)
+                got = interp.call_function(fn, [a, b], {})
+                if bool(got) != want:
+                    return f"{fn.name}({a!r}, {b!r}) answers {got!r}, must be {want!r}"
+    except Unsupported as e:
+        raise AnalysisError(f"{fn.name} outside the interpretable fragment: {e}")
+    except PyRaise as e:
+        return f"{fn.name} raises {e.name} on plain values"
+    return ""
+
+
 @rule("C05.R3", floor=3)
 def r3_equals_entry_points(ctx):
     """runtime.equals tests both operands for bool/None before ==; core = sends every adjacent
     pair through runtime/equals; not= negates =."""
     eq = ctx.fn(RT, "equals")
-    a, b = [x.arg for x in eq.args.args[:2]]
-    txt = P.un(eq)
-    ok = f"isinstance({a}, (bool, type(None))) or isinstance({b}, (bool, type(None)))" in txt and f"return {a} is {b}" in txt and f"return {a} == {b}" in txt
-    ctx.ob("C05.R3", f"{RT}::equals::bool/None guard on both operands", RT, eq.lineno, ok, "" if ok else "equals no longer keeps booleans and nil apart from numbers for both operands")
+    w = _separates_bool_and_nil(ctx.py(RT), eq)
+    ctx.ob("C05.R3", f"{RT}::equals::bool/None guard on both operands", RT, eq.lineno, not w, "" if not w else f"equals no longer keeps booleans and nil apart from numbers for both operands: {w}")
     defs = L.top_defs(ctx.lisp(CORE))
     d = defs.get("=")
     if d is None:
@@ -405,12 +430,39 @@ def r4_symmetric_predicate(ctx):
     it = ctx.py(IFACE)
     se = P.find_def(it, "seq_equals")
     txt = P.un(se)
-    ok = "zip_longest(s1, s2, fillvalue=sentinel)" in txt and "return NotImplemented" in txt and "e1 is sentinel" in txt and "e2 is sentinel" in txt
+    # both sequences are walked together, padded with one private sentinel, and *each* element is
+    # tested against it (whatever the locals are called)
+    ok = False
+    pa = [a.arg for a in se.args.args[:2]]
+    for c in P.calls(se):
+        if P.un(c.func).endswith("zip_longest") and [P.un(a) for a in c.args] == pa:
+            fv = next((P.un(k.value) for k in c.keywords if k.arg == "fillvalue"), None)
+            for lp in ast.walk(se):
+                if isinstance(lp, ast.For) and isinstance(lp.target, ast.Tuple) and len(lp.target.elts) == 2 and (P.contains(lp.iter, c) or (isinstance(lp.iter, ast.Name) and any(
+                        isinstance(a, ast.Assign) and P.un(a.targets[0]) == lp.iter.id and P.contains(a.value, c) for a in ast.walk(se)))):
+                    e1, e2 = (P.un(x) for x in lp.target.elts)
+                    tested = {P.un(cm.left) for cm in ast.walk(lp) if isinstance(cm, ast.Compare) and isinstance(cm.ops[0], ast.Is) and P.un(cm.comparators[0]) == fv}
+                    ok = fv is not None and {e1, e2} <= tested and "return NotImplemented" in txt
     ctx.ob("C05.R4", f"{IFACE}::seq_equals::zip_longest with one sentinel, NotImplemented for non-sequential", IFACE, se.lineno, ok, "" if ok else "seq_equals no longer treats both arguments alike")
     for rel, cname, kind in ((MAP, "PersistentMap", "Mapping"), (SET, "PersistentSet", "AbstractSet")):
         eq = P.methods(P.find_def(ctx.py(rel), cname)).get("__eq__")
         t = P.un(eq)
-        ok = f"if not isinstance(other, {kind}): return NotImplemented" in t and "if self is other: return True" in t
+        # NotImplemented for a foreign kind: under `if not isinstance(other, K)`, or in the else of `if isinstance(other, K)`
+        defers = False
+        for i in ast.walk(eq):
+            if isinstance(i, ast.If):
+                tt = P.un(i.test)
+                if tt == f"not isinstance(other, {kind})" and any(isinstance(x, ast.Return) and P.un(x.value) == "NotImplemented" for x in i.body):
+                    defers = True
+                if tt == f"isinstance(other, {kind})" and any(isinstance(x, ast.Return) and P.un(x.value) == "NotImplemented" for x in i.orelse):
+                    defers = True
+                if tt == f"isinstance(other, {kind})" and not i.orelse and all(isinstance(x, ast.Return) or True for x in i.body) and any(isinstance(x, ast.Return) for x in ast.walk(i.body[-1])):
+                    # `if isinstance(...): <all paths return>` followed by `return NotImplemented`
+                    blk = P.block_of(i) or []
+                    k = blk.index(i) if i in blk else -1
+                    if 0 <= k < len(blk) - 1 and isinstance(blk[k + 1], ast.Return) and P.un(blk[k + 1].value) == "NotImplemented":
+                        defers = True
+        ok = defers and "if self is other: return True" in t.replace("\n", " ").replace("    ", " ").replace("  ", " ") or (defers and any(isinstance(i, ast.If) and P.un(i.test) == "self is other" for i in ast.walk(eq)))
         ctx.ob("C05.R4", f"{rel}::{cname}.__eq__::NotImplemented for non-{kind}", rel, eq.lineno, ok, "" if ok else f"{cname}.__eq__ does not defer to the other operand for foreign kinds")
 
 
